@@ -75,6 +75,40 @@ let find_block (tok : string) : block option =
   | [h; n] -> (match get_block !blocks (zs h) (zs n) with Some b -> Some b | None -> failwith "unknown block")
   | _ -> failwith "bad block ref"
 
+
+(* ---- data-structure level: a whole operation sequence on one txList (core/tx_list.go), canonical output.
+   tlseq <strict 0|1> <bump> <op;op;...>   ops: A:<tx>  F:<threshold>  X:<cost>:<gas>  C:<k>  R:<nonce>  Y:<start>  L
+   answer: one result per op joined by ';' then ' | ' and the final list (hash/nonce pairs, ceilings, strictness) *)
+let o_none : oracle = { operm1 = []; operm2 = []; operm3 = []; operm4 = []; orank = [] }
+let by_nonce (l : tx list) : tx list = List.sort (fun a b -> compare (int_of_z a.tnonce) (int_of_z b.tnonce)) l
+let hs (l : tx list) : string = String.concat "," (List.map (fun t -> sz t.thash) (by_nonce l))
+let dummy_nonce (n : z) : tx =
+  { thash = Z0; tfrom = Z0; tnonce = n; tprice = Z0; tgas = Z0; tvalue = Z0; tintr = Z0; tsize = Z0; tsigok = true }
+let tl_dump (l : txlist) : string =
+  String.concat "," (List.map (fun t -> sz t.thash ^ "@" ^ sz t.tnonce) l.items)
+  ^ "/" ^ big l.costcap ^ "/" ^ sz l.gascap ^ "/" ^ (if l.strict then "s" else "n")
+let tlseq (strict : string) (bump : string) (ops : string) : string =
+  let l = ref (new_txlist (strict = "1")) in
+  let dead = ref false in
+  let one (op : string) : string =
+    if !dead then "-" else
+    match split_on ':' op with
+    | "A" :: rest ->
+      let t = parse_tx (String.concat ":" rest) in
+      let ((ins, old), l') = tl_add !l t (zs bump) in
+      l := l'; (if ins then "1" else "0") ^ (match old with Some o -> "~" ^ sz o.thash | None -> "")
+    | ["F"; n] -> let (rm, l') = tl_forward !l (zs n) in l := l'; hs rm
+    | ["X"; c; g] -> let ((dr, inv), l') = tl_filter o_none !l (zs c) (zs g) in l := l'; hs dr ^ "/" ^ hs inv
+    | ["C"; k] -> (match tl_cap !l (zs k) with
+                   | Some (dr, l') -> l := l'; hs dr
+                   | None -> dead := true; "panic")
+    | ["R"; n] -> let ((b, inv), l') = tl_remove o_none !l (dummy_nonce (zs n)) in l := l'; (if b then "1" else "0") ^ "/" ^ hs inv
+    | ["Y"; n] -> let (rd, l') = tl_ready !l (zs n) in l := l'; hs rd
+    | ["L"] -> String.concat "," (List.map (fun t -> sz t.thash) !l.items)
+    | _ -> failwith ("bad tl op " ^ op) in
+  let rs = List.map one (split_on ';' ops) in
+  String.concat ";" rs ^ " | " ^ tl_dump !l
+
 let handle (toks : string list) : string =
   match toks with
   | ["new"; asl; gsl; aq; gq; bump; nolocals; gp; maxgas; cur; snd_] ->
@@ -104,6 +138,7 @@ let handle (toks : string list) : string =
      | Some nb -> (match reorg_txs !blocks (find_block oldb) nb with
                    | Ok None -> "unrooted" | Ok (Some l) -> "ok " ^ join (fun t -> sz t.thash) l
                    | Panic -> "panic" | OutOfFuel -> "outoffuel"))
+  | ["tlseq"; strict; bump; ops] -> tlseq strict bump ops
   | ["commit"] -> (match !cand with Some p -> state := Some p; cand := None; "ok" | None -> "driver-error nothing-to-commit")
   | ["dump"] -> dump (get ())
   | _ -> "driver-error unknown-command"
